@@ -234,6 +234,13 @@ impl DescriptorManager {
     }
 }
 
+#[cfg(feature = "verif_hooks")]
+impl DescriptorManager {
+    pub fn verif_clear(&mut self) {
+        self.store.lock().unwrap().clear();
+    }
+}
+
 fn default_unary_descriptor(op: String, rhs: String) -> String {
     op + &rhs
 }
